@@ -125,6 +125,23 @@ pub fn any_unprotected(ctx: &mut Ctx) -> coset::Header {
     capi::b_header(&h).unwrap_or_default()
 }
 
+/// a recipients list for a carrier: none, one, or two with a nested one - the structures and the
+/// documented refusals of the carrier do not depend on it
+pub fn some_recipients(ctx: &mut Ctx) -> Vec<coset::CoseRecipient> {
+    let leaf = |ctx: &mut Ctx| coset::CoseRecipient { protected: coset::ProtectedHeader::default(), unprotected: any_unprotected(ctx), ciphertext: if ctx.rng.coin() { Some(vec![1, 2]) } else { None }, recipients: vec![] };
+    match ctx.rng.below(4) {
+        0 => vec![],
+        1 => vec![leaf(ctx)],
+        2 => vec![leaf(ctx), leaf(ctx)],
+        _ => {
+            let inner = leaf(ctx);
+            let mut outer = leaf(ctx);
+            outer.recipients = vec![inner];
+            vec![outer]
+        }
+    }
+}
+
 pub fn expect_eq(ctx: &mut Ctx, helper: &str, got: &[u8], want: &[u8], family: &str, tuple_desc: &[u8]) {
     ctx.eval();
     ctx.count(&format!("helper:{}", helper));
@@ -785,7 +802,7 @@ pub fn c04_case(ctx: &mut Ctx, prot: &MProt, aad: &[u8], payload: &[u8]) {
                 Ok(())
             }))
         } else {
-            let m = coset::CoseMac { protected: cp.clone(), unprotected: cu.clone(), payload: Some(payload.to_vec()), tag: vec![0x77], recipients: vec![] };
+            let m = coset::CoseMac { protected: cp.clone(), unprotected: cu.clone(), payload: Some(payload.to_vec()), tag: vec![0x77], recipients: some_recipients(ctx) };
             guard(|| m.verify_tag(aad, |t, d| -> Result<(), ()> {
                 seen.push((t.to_vec(), d.to_vec()));
                 Ok(())
@@ -811,7 +828,7 @@ pub fn c04_case(ctx: &mut Ctx, prot: &MProt, aad: &[u8], payload: &[u8]) {
                 Ok(())
             })).is_err()
         } else {
-            let m = coset::CoseMac { protected: cp.clone(), unprotected: cu.clone(), payload: None, tag: vec![], recipients: vec![] };
+            let m = coset::CoseMac { protected: cp.clone(), unprotected: cu.clone(), payload: None, tag: vec![], recipients: some_recipients(ctx) };
             guard(|| m.verify_tag(aad, |_t, _d| -> Result<(), ()> {
                 called = true;
                 Ok(())
@@ -953,7 +970,7 @@ pub fn c05_case(ctx: &mut Ctx, prot: &MProt, aad: &[u8], plaintext: &[u8]) {
             Err(p) => unexpected_panic(ctx, "enc_structure_data", &p.site()),
         }
         // recipient: decrypt with each context (recipient contexts succeed, others must refuse)
-        let rcp = coset::CoseRecipient { protected: cp.clone(), unprotected: cu.clone(), ciphertext: Some(ct.clone()), recipients: vec![] };
+        let rcp = coset::CoseRecipient { protected: cp.clone(), unprotected: cu.clone(), ciphertext: Some(ct.clone()), recipients: some_recipients(ctx) };
         let mut seen: Vec<(Vec<u8>, Vec<u8>)> = Vec::new();
         let r = guard(|| rcp.decrypt(c, aad, |x, d| -> Result<Vec<u8>, ()> {
             seen.push((x.to_vec(), d.to_vec()));
@@ -1004,7 +1021,7 @@ pub fn c05_case(ctx: &mut Ctx, prot: &MProt, aad: &[u8], plaintext: &[u8]) {
                 Ok(vec![9])
             }))
         } else {
-            let m = coset::CoseEncrypt { protected: cp.clone(), unprotected: cu.clone(), ciphertext: Some(ct.clone()), recipients: vec![] };
+            let m = coset::CoseEncrypt { protected: cp.clone(), unprotected: cu.clone(), ciphertext: Some(ct.clone()), recipients: some_recipients(ctx) };
             guard(|| m.decrypt(aad, |x, d| -> Result<Vec<u8>, ()> {
                 seen.push((x.to_vec(), d.to_vec()));
                 Ok(vec![9])
@@ -1029,7 +1046,7 @@ pub fn c05_case(ctx: &mut Ctx, prot: &MProt, aad: &[u8], plaintext: &[u8]) {
                 Ok(vec![])
             })).is_err()
         } else {
-            let m = coset::CoseEncrypt { protected: cp.clone(), unprotected: cu.clone(), ciphertext: None, recipients: vec![] };
+            let m = coset::CoseEncrypt { protected: cp.clone(), unprotected: cu.clone(), ciphertext: None, recipients: some_recipients(ctx) };
             guard(|| m.decrypt(aad, |_x, _d| -> Result<Vec<u8>, ()> {
                 called = true;
                 Ok(vec![])
@@ -1081,7 +1098,7 @@ pub fn c05_case(ctx: &mut Ctx, prot: &MProt, aad: &[u8], plaintext: &[u8]) {
         }
     }
     // recipient without ciphertext must refuse
-    let rcp = coset::CoseRecipient { protected: cp, unprotected: cu.clone(), ciphertext: None, recipients: vec![] };
+    let rcp = coset::CoseRecipient { protected: cp, unprotected: cu.clone(), ciphertext: None, recipients: some_recipients(ctx) };
     let mut called = false;
     let r = guard(|| rcp.decrypt(EncryptionContext::EncRecipient, aad, |_x, _d| -> Result<Vec<u8>, ()> {
         called = true;
